@@ -107,6 +107,9 @@ pub fn encode<const B: usize, const L: usize>(ws: &mut WriteSeam, p: &Plan, vals
     if !<Uint<B, L> as Encode>::is_ssz_fixed_len() || <Uint<B, L> as Encode>::ssz_fixed_len() != nb {
         ws.ctx.violate("LEN", format!("ssz_fixed_len() = {} for Uint<{B}> (BYTES = {nb})", <Uint<B, L> as Encode>::ssz_fixed_len()));
     }
+    if !<Uint<B, L> as Decode>::is_ssz_fixed_len() || <Uint<B, L> as Decode>::ssz_fixed_len() != nb {
+        ws.ctx.violate("LEN", format!("Decode::ssz_fixed_len() = {} for Uint<{B}> (BYTES = {nb})", <Uint<B, L> as Decode>::ssz_fixed_len()));
+    }
     for u in &us {
         if u.ssz_bytes_len() != nb {
             ws.ctx.violate("LEN", format!("ssz_bytes_len() = {} for Uint<{B}> (BYTES = {nb})", u.ssz_bytes_len()));
